@@ -133,7 +133,7 @@ fn main() {
          decimal TTL tokens (leading zeros, up to 2^31-1); LOADER differential: SOA+NS+records written to a scratch root and loaded \
          by the real FileZoneHandler::try_from_config(root_dir, zone_path), loaded zone and AXFR answer of the real Catalog == records \
          of the file; $INCLUDE in the valid direction: a 4-record file split at every pair of positions into parent + included file \
-         (nested once) x included-file origin (inherited / own $ORIGIN / $INCLUDE argument) x relative names on either side x final \
+         (nested once) x included-file origin (inherited / own $ORIGIN; the unsupported $INCLUDE origin argument is only counted) x relative names on either side x final \
          newlines x entry style x eol x path form, through the parser and through the file store. \
          Oracle: parse Ok, loaded (owner,TTL,class,type,RDATA) set == records printed, returned origin == argument. \
          MALFORMED: all strings of length <= 5 (thorough 6) over the 15 characters ' \\t\\n\\r();\"\\\\$@.a0*' (with and without an \
@@ -305,6 +305,8 @@ fn main() {
         let (ni, nl) = loader::include_family(&ctx, &w, &dir.join("include"));
         ctx.set("include_valid_cases", json!(ni));
         ctx.set("include_loader_cases", json!(nl));
+        let no = loader::include_origin_argument_observation(&ctx, &w, &dir.join("include"));
+        ctx.set("include_origin_argument_observation_cases", json!(no));
         eprintln!("[C20] $INCLUDE valid: {} parser cases (ok={}), {} loader cases (ok={}) at {:.1}s", ni, ctx.outcome_count("include:ok"), nl, ctx.outcome_count("include-loader:ok"), ctx.elapsed_s());
         if ctx.outcome_count("include:ok") == 0 {
             ctx.machinery_failure("vacuous: no $INCLUDE case was loaded exactly");
